@@ -40,19 +40,37 @@ func envOr(k, d string) string {
 type laneSpec struct {
 	Name string
 	Env  []string
+	// side lanes: another worker binary, a fraction of the cases, a fixed number of worker processes
+	Bin     string
+	Frac    int
+	Workers int
 }
+
+// worker386Bin: the same worker built with GOARCH=386 (C01's "whatever the importing program is built as":
+// 32-bit platforms have other alignment and integer-width rules).
+var worker386Bin string
 
 func lanesFor(prop string) []laneSpec {
 	switch prop {
 	case "C01", "C06":
-		return []laneSpec{{"panicnil=1", []string{"GODEBUG=panicnil=1"}}, {"panicnil=0", []string{"GODEBUG=panicnil=0"}}}
+		ls := []laneSpec{{Name: "panicnil=1", Env: []string{"GODEBUG=panicnil=1"}}, {Name: "panicnil=0", Env: []string{"GODEBUG=panicnil=0"}}}
+		if prop == "C01" && worker386Bin != "" {
+			if _, err := os.Stat(worker386Bin); err == nil {
+				ls = append(ls, laneSpec{Name: "arch=386", Env: []string{"GODEBUG=panicnil=1"}, Bin: worker386Bin, Frac: 8, Workers: 2})
+			}
+		}
+		return ls
 	}
-	return []laneSpec{{"panicnil=1", []string{"GODEBUG=panicnil=1"}}}
+	return []laneSpec{{Name: "panicnil=1", Env: []string{"GODEBUG=panicnil=1"}}}
 }
 
 func workerCmd(lane laneSpec, job *proto.Job) *exec.Cmd {
 	js, _ := json.Marshal(job)
-	cmd := exec.Command(workerBin, "-test.run", "^TestWorker$", "-test.timeout", "0")
+	bin := workerBin
+	if lane.Bin != "" {
+		bin = lane.Bin
+	}
+	cmd := exec.Command(bin, "-test.run", "^TestWorker$", "-test.timeout", "0")
 	cwd := filepath.Join(filepath.Dir(workerBin), "cwd")
 	os.MkdirAll(cwd, 0o755)
 	cmd.Dir = cwd
@@ -653,6 +671,7 @@ func main() {
 	replay := flag.String("replay", "", "replay file")
 	nworkers := flag.Int("workers", 16, "worker processes")
 	flag.StringVar(&workerBin, "worker", filepath.Join(root, ".build", "sim.test"), "worker test binary")
+	flag.StringVar(&worker386Bin, "worker386", "", "worker test binary built with GOARCH=386 (side lane of C01)")
 	maxSec := flag.Int("max-sec", 0, "wall-clock cap per worker (0: tier default)")
 	noMin := flag.Bool("no-minimise", false, "skip minimisation")
 	flag.Parse()
@@ -684,7 +703,13 @@ func doCheck(prop, tier string, seed uint64, nworkers, maxSec int, noMin bool) i
 		}
 	}
 	lanes := lanesFor(prop)
-	per := nworkers / len(lanes)
+	mainLanes := 0
+	for _, l := range lanes {
+		if l.Frac == 0 {
+			mainLanes++
+		}
+	}
+	per := nworkers / mainLanes
 	if per < 1 {
 		per = 1
 	}
@@ -698,14 +723,21 @@ func doCheck(prop, tier string, seed uint64, nworkers, maxSec int, noMin bool) i
 	for _, lane := range lanes {
 		ldir := filepath.Join(outDir, lane.Name)
 		os.MkdirAll(ldir, 0o755)
-		for sh := 0; sh < per; sh++ {
+		nsh, stride := per, per
+		if lane.Frac > 0 {
+			// a side lane runs every Frac-th case only, in its own few processes; its statistics are kept apart
+			nsh, stride = lane.Workers, lane.Workers*lane.Frac
+		}
+		for sh := 0; sh < nsh; sh++ {
 			wg.Add(1)
 			go func(lane laneSpec, sh int) {
 				defer wg.Done()
-				job := proto.Job{Mode: "explore", Prop: prop, Tier: tier, Seed: seed, Shard: sh, NShards: per, OutDir: ldir, MaxSec: maxSec, Lane: lane.Name}
+				job := proto.Job{Mode: "explore", Prop: prop, Tier: tier, Seed: seed, Shard: sh, NShards: stride, OutDir: ldir, MaxSec: maxSec, Lane: lane.Name}
 				r := runShard(lane, job, 400)
 				mu.Lock()
-				all.stats = append(all.stats, r.stats...)
+				if lane.Frac == 0 {
+					all.stats = append(all.stats, r.stats...)
+				}
 				all.viols = append(all.viols, r.viols...)
 				all.crashes = append(all.crashes, r.crashes...)
 				all.harness = append(all.harness, r.harness...)
